@@ -70,6 +70,7 @@ def check(prop, tier, seed):
         return [hit]
     rng = random.Random(seed * 131 + 3)
     res = {"suite": "dispatch", "kind": "table+mc+random graphs", "params": params, "cache_hit": False}
+    res["rule"] = "the declared-vs-borrowed table extracted from the real code, random system graphs (2-12 systems, 16 SystemData shapes, dependencies, barriers) x pool sizes 1..64 x 1-5 rounds, and all shape pairs run side by side; one logged dispatch per case checked by TLC against Dispatch!Check"
     d, ngraphs = graphs_module(tier)
     md = os.path.join(C.OUT, "md", "disp%d" % os.getpid())
     p = C.sh(["timeout", "900", "tlc", "-workers", "4", "-metadir", md, "-cleanup", "-noGenerateSpecTE",
